@@ -789,4 +789,38 @@ theorem cos_sin_two_arg (w x : ℝ) :
       rw [this]; linarith
     · field_simp
 
+/-! ### pass 11: entries of rotation matrices are in [-1, 1]; `Near` is reflexive and monotone -/
+/-- every entry of the matrix of a unit quaternion is in `[-1, 1]` -/
+theorem SO3matrix_entries_le_one (p : Quat ℝ) (h : p.normSq = 1) :
+    (|(SO3matrix p).r0.x| ≤ 1 ∧ |(SO3matrix p).r0.y| ≤ 1 ∧ |(SO3matrix p).r0.z| ≤ 1) ∧
+    (|(SO3matrix p).r1.x| ≤ 1 ∧ |(SO3matrix p).r1.y| ≤ 1 ∧ |(SO3matrix p).r1.z| ≤ 1) ∧
+    (|(SO3matrix p).r2.x| ≤ 1 ∧ |(SO3matrix p).r2.y| ≤ 1 ∧ |(SO3matrix p).r2.z| ≤ 1) := by
+  have h' : p.x * p.x + p.y * p.y + p.z * p.z + p.w * p.w = 1 := h
+  refine ⟨row_entries_le_one _ ?_, row_entries_le_one _ ?_, row_entries_le_one _ ?_⟩
+  · unfold SO3matrix; lie_unfold
+    linear_combination (4 * (p.y * p.y + p.z * p.z)) * h'
+  · unfold SO3matrix; lie_unfold
+    linear_combination (4 * (p.x * p.x + p.z * p.z)) * h'
+  · unfold SO3matrix; lie_unfold
+    linear_combination (4 * (p.x * p.x + p.y * p.y)) * h'
+
+theorem abs_sub_le_two (a b : ℝ) (ha : |a| ≤ 1) (hb : |b| ≤ 1) : |a - b| ≤ 2 := by
+  rw [abs_le] at *; constructor <;> linarith [ha.1, ha.2, hb.1, hb.2]
+
+theorem SO3matrix_near_two (p q : Quat ℝ) (hp : p.normSq = 1) (hq : q.normSq = 1) :
+    Mat3.Near 2 (SO3matrix p) (SO3matrix q) := by
+  obtain ⟨⟨a1, a2, a3⟩, ⟨a4, a5, a6⟩, ⟨a7, a8, a9⟩⟩ := SO3matrix_entries_le_one p hp
+  obtain ⟨⟨b1, b2, b3⟩, ⟨b4, b5, b6⟩, ⟨b7, b8, b9⟩⟩ := SO3matrix_entries_le_one q hq
+  exact ⟨⟨abs_sub_le_two _ _ a1 b1, abs_sub_le_two _ _ a2 b2, abs_sub_le_two _ _ a3 b3⟩,
+    ⟨abs_sub_le_two _ _ a4 b4, abs_sub_le_two _ _ a5 b5, abs_sub_le_two _ _ a6 b6⟩,
+    ⟨abs_sub_le_two _ _ a7 b7, abs_sub_le_two _ _ a8 b8, abs_sub_le_two _ _ a9 b9⟩⟩
+
+theorem Mat3.Near.mono {δ δ' : ℝ} {A B : Mat3 ℝ} (hle : δ ≤ δ') (h : Mat3.Near δ A B) : Mat3.Near δ' A B := by
+  obtain ⟨⟨a1, a2, a3⟩, ⟨a4, a5, a6⟩, ⟨a7, a8, a9⟩⟩ := h
+  exact ⟨⟨a1.trans hle, a2.trans hle, a3.trans hle⟩, ⟨a4.trans hle, a5.trans hle, a6.trans hle⟩,
+    ⟨a7.trans hle, a8.trans hle, a9.trans hle⟩⟩
+
+theorem Mat3.Near.refl' {δ : ℝ} (hδ : 0 ≤ δ) (A : Mat3 ℝ) : Mat3.Near δ A A := by
+  refine ⟨⟨?_, ?_, ?_⟩, ⟨?_, ?_, ?_⟩, ⟨?_, ?_, ?_⟩⟩ <;> simpa using hδ
+
 end PP
